@@ -96,6 +96,18 @@ class SegmentAllocationTableAdapter(Adapter):
                             AKAI_SAT_RESERVED_FLAG_V2
                     )
 
+                    if current_sector_is_directory \
+                            and dirty_flags[subpath_index] and len(links) > 0:
+                        # the rest of this directory area was walked 
+                        # before: join it
+                        add_to_sector_links(links, sector_links)
+                        sector_links[links[-1]] = SectorLink(
+                            next=subpath_index, 
+                            end=False
+                        )
+                        continue_flag = False
+                        break
+
                     if not current_sector_is_directory and previous_sector_was_directory and len(links) > 0:
                         add_to_sector_links(links, sector_links)
                         previous_sector_was_directory = False
